@@ -32,7 +32,13 @@ def _f(id_, component, oracle, shape, what, scenario, params, seed=0, **extra):
         "what": what,
         "witness": {"family": scenario.split(".")[0], "case": {"scenario": scenario, "seed": seed, "params": params}},
     }
+    commit = extra.pop("fixed_commit", None)
     e.update(extra)
+    if commit:
+        # the repair has landed in /repo: a fixed entry suppresses nothing and is not re-run by the runner
+        e["status"] = "fixed"
+        e["commit"] = commit
+        e["line"] = f"fixed: property=C07 {commit} {what}"
     return e
 
 
@@ -41,32 +47,32 @@ FINDINGS = [
     _f(
         "C07-mutex-acquire-spin", "Mutex", "frozen-clock", "spin:Mutex.acquire",
         "Mutex.acquire() polls with `yield 0.0` while another process holds the lock for a positive time: the clock never advances",
-        "sync.mutex_contention", {"arrivals_ns": [T, T]}, fix_proposed="C09-sync-waits-park.diff", fix_proposed_by="C09", note=SYNC_NOTE,
+        "sync.mutex_contention", {"arrivals_ns": [T, T]}, fix_proposed="C09-sync-waits-park.diff", fix_proposed_by="C09", fixed_commit="ae80af5", note=SYNC_NOTE,
     ),
     _f(
         "C07-semaphore-acquire-spin", "Semaphore", "frozen-clock", "spin:Semaphore.acquire",
         "Semaphore.acquire() polls with `yield 0.0` while the permits are held for a positive time: the clock never advances",
-        "sync.semaphore_contention", {"arrivals_ns": [T, T], "cap": 2}, fix_proposed="C09-sync-waits-park.diff", fix_proposed_by="C09", note=SYNC_NOTE,
+        "sync.semaphore_contention", {"arrivals_ns": [T, T], "cap": 2}, fix_proposed="C09-sync-waits-park.diff", fix_proposed_by="C09", fixed_commit="ae80af5", note=SYNC_NOTE,
     ),
     _f(
         "C07-rwlock-acquire-read-spin", "RWLock", "frozen-clock", "spin:RWLock.acquire_read",
         "RWLock.acquire_read() polls with `yield 0.0` behind a waiting writer: the clock never advances",
-        "sync.rwlock_mixed", {"arrivals_ns": [T, T, T]}, fix_proposed="C09-sync-waits-park.diff", fix_proposed_by="C09", note=SYNC_NOTE,
+        "sync.rwlock_mixed", {"arrivals_ns": [T, T, T]}, fix_proposed="C09-sync-waits-park.diff", fix_proposed_by="C09", fixed_commit="ae80af5", note=SYNC_NOTE,
     ),
     _f(
         "C07-rwlock-acquire-write-spin", "RWLock", "frozen-clock", "spin:RWLock.acquire_write",
         "RWLock.acquire_write() polls with `yield 0.0` while a reader holds the lock for a positive time: the clock never advances",
-        "sync.rwlock_mixed", {"arrivals_ns": [T, T, T]}, fix_proposed="C09-sync-waits-park.diff", fix_proposed_by="C09", note=SYNC_NOTE,
+        "sync.rwlock_mixed", {"arrivals_ns": [T, T, T]}, fix_proposed="C09-sync-waits-park.diff", fix_proposed_by="C09", fixed_commit="ae80af5", note=SYNC_NOTE,
     ),
     _f(
         "C07-barrier-wait-spin", "Barrier", "frozen-clock", "spin:Barrier.wait",
         "Barrier.wait() polls with `yield 0.0` until the last party arrives at a later time: the clock never advances",
-        "sync.barrier_staggered", {"arrivals_ns": [T, T], "cap": 2}, fix_proposed="C09-sync-waits-park.diff", fix_proposed_by="C09", note=SYNC_NOTE,
+        "sync.barrier_staggered", {"arrivals_ns": [T, T], "cap": 2}, fix_proposed="C09-sync-waits-park.diff", fix_proposed_by="C09", fixed_commit="ae80af5", note=SYNC_NOTE,
     ),
     _f(
         "C07-condition-wait-spin", "Condition", "frozen-clock", "spin:Condition.wait",
         "Condition.wait() polls with `yield 0.0` until a notifier that runs later: the clock never advances",
-        "sync.condition_notify_all", {"arrivals_ns": [T]}, fix_proposed="C09-sync-waits-park.diff", fix_proposed_by="C09", note=SYNC_NOTE,
+        "sync.condition_notify_all", {"arrivals_ns": [T]}, fix_proposed="C09-sync-waits-park.diff", fix_proposed_by="C09", fixed_commit="ae80af5", note=SYNC_NOTE,
     ),
     # ---- stale `now` reused after a yield
     _f(
@@ -87,7 +93,7 @@ FINDINGS = [
     _f(
         "C07-distributed-rate-limiter-forward-stale", "DistributedRateLimiter", "past-emission", "forward::Request",
         "DistributedRateLimiter forwards with the arrival time (`event.time`) after the backing-store read/write round trips",
-        "rate_limiter.distributed_shared_store", {"arrivals_ns": [T]}, fix_proposed="C10-distributed-forward-time.diff", fix_proposed_by="C10",
+        "rate_limiter.distributed_shared_store", {"arrivals_ns": [T]}, fix_proposed="C10-distributed-forward-time.diff", fix_proposed_by="C10", fixed_commit="3c4ca95",
     ),
     _f(
         "C07-async-server-cpu-queue-stale", "AsyncServer", "past-emission", "_process_cpu_queue",
@@ -106,16 +112,16 @@ FINDINGS = [
     ),
     # ---- zero wait with the condition still false
     _f(
-        "C07-rate-limited-entity-fixed-window-zero-wait", "RateLimitedEntity", "frozen-clock", "rearm:rate_limit_poll::<name>",
+        "C07-rate-limited-entity-fixed-window-zero-wait", "RateLimitedEntity", "frozen-clock", "rearm:rate_limit_poll::<name>@FixedWindowPolicy",
         "FixedWindowPolicy.time_until_available() returns zero on a window boundary while try_acquire() fails: RateLimitedEntity re-polls forever at one instant",
         "rate_limiter.fixed_window_round_window", {"arrivals_ns": [T] * 7, "cap": 2, "x": {"v": 0}},
-        fix_proposed="C10-fixed-window-integer-ns.diff", fix_proposed_by="C10",
+        fix_proposed="C10-fixed-window-integer-ns.diff", fix_proposed_by="C10", fixed_commit="94ca4e1",
     ),
     _f(
         "C07-inductor-subresolution-poll", "Inductor", "frozen-clock", "rearm:inductor_poll::<name>",
         "Inductor re-polls after `Duration.from_seconds(smoothed_interval)`; a positive interval below 1 ns truncates to a zero wait that can never satisfy _can_forward()",
         "rate_limiter.inductor_burst", {"arrivals_ns": [2500000002, 2500000002, 2500000003, 2500000003]},
-        fix_proposed="C10-inductor-poll-progress.diff", fix_proposed_by="C10",
+        fix_proposed="C10-inductor-poll-progress.diff", fix_proposed_by="C10", fixed_commit="e7fb3b2",
     ),
     _f(
         "C07-shifted-server-boundary-truncation", "ShiftedServer", "frozen-clock", "rearm:_ShiftChange",
@@ -163,10 +169,12 @@ def check_all(verbose=True) -> list[tuple[dict, bool, list]]:
         res = c07.run_case(case)
         keys = [v.key() for v in res.violations]
         want = (e["component"], e["oracle"], e["shape"])
-        ok = want in keys
+        alive = want in keys
+        ok = alive if e["status"] == "known" else not alive  # a fixed entry must be gone
         out.append((e, ok, keys))
         if verbose:
-            print(("alive " if ok else "GONE  ") + e["id"], "" if ok else f"(saw {keys})", "| other keys:", [k for k in keys if k != want])
+            state = ("alive " if alive else "gone  ") + ("" if ok else "UNEXPECTED ")
+            print(state + f"[{e['status']}] " + e["id"], "| other keys:", [k for k in keys if k != want])
     return out
 
 
